@@ -594,7 +594,85 @@ def setup():
     return 0
 
 def selftest():
-    log("selftest: not implemented yet")
+    """Demonstrate that the binding binds: the same TLA+ checks that accept the real observations reject them as soon as one
+    logged field is corrupted, one observation-point event is dropped, or one input is shifted."""
+    wd = sfv.workdir("selftest")
+    results = []
+    def mc(module, sp, tb, cfgfile="MC.cfg", extra=None):
+        env = {"SCOPE": sp, "TABLE": tb}
+        if extra:
+            env.update(extra)
+        return sfv.run_tlc(module, cfgfile, env, wd, workers=4, timeout=600)
+    def expect(name, res, want_viol, where=None):
+        n = len(res["viol"])
+        ok = (n > 0) == want_viol
+        if ok and where is not None:
+            ok = any(v[2:5] == list(where) for v in res["viol"])
+        results.append((name, ok, n))
+        log("  %-62s %s (%d VIOL lines)" % (name, "ok" if ok else "FAILED", n))
+    # --- P1: definitions against the behaviour tree
+    scope = {"prop": "C02", "cfgs": [sma(3), {"k": "WelfordOnline", "n": 2}], "alphabet": [-2, 0, 1, 3], "unit": 1, "maxlen": 5, "extras": True}
+    sp = os.path.join(wd, "p1.scope.json"); tb = os.path.join(wd, "p1.table.ndjson")
+    json.dump(scope, open(sp, "w")); sfv.harness("table", sp, tb)
+    expect("P1 clean table accepted", mc("MC_Def", sp, tb), False)
+    lines = [json.loads(l) for l in open(tb)]
+    def write(ls, path):
+        with open(path, "w") as f:
+            for l in ls:
+                f.write(json.dumps(l) + "\n")
+    # flip one limb of one logged value: Sma(3), length 5, index 777
+    import copy
+    ls = copy.deepcopy(lines); o = ls[5]["o"][777]
+    o[2] = (o[2] + [0, 0, 0])[:max(3, len(o[2]))]; o[2][2] = (o[2][2] + 1) % 10000          # +- 1e-4 on a value of order 1
+    t2 = os.path.join(wd, "p1.corrupt1.ndjson"); write(ls, t2)
+    expect("P1 one logged value changed by 1e-4 -> rejected there", mc("MC_Def", sp, t2), True, where=(1, 5, 777))
+    ls = copy.deepcopy(lines); ls[4]["o"][100] = ["n"]
+    t3 = os.path.join(wd, "p1.corrupt2.ndjson"); write(ls, t3)
+    expect("P1 one Some replaced by None -> rejected there", mc("MC_Def", sp, t3), True, where=(1, 4, 100))
+    sc2 = dict(scope); sc2["alphabet"] = [-2, 0, 1, 4]
+    sp2 = os.path.join(wd, "p1.scope2.json"); t4 = os.path.join(wd, "p1.shifted.ndjson")
+    json.dump(sc2, open(sp2, "w")); sfv.harness("table", sp2, t4)
+    expect("P1 one input symbol shifted (3 -> 4) in the run only -> rejected", mc("MC_Def", sp, t4), True)
+    # --- C01: observation points
+    sc = {"cfgs": c01_pairs([sma(2), {"k": "Rsi", "n": 2}], [{"k": "Roc", "n": 1}, sma(2)]), "alphabet": [1, 2, 4], "unit": 1, "maxlen": 4, "taps": True}
+    sp = os.path.join(wd, "c01.scope.json"); tb = os.path.join(wd, "c01.table.ndjson")
+    json.dump(sc, open(sp, "w")); sfv.harness("table", sp, tb)
+    expect("C01 clean taps accepted", mc("MC_C01", sp, tb, "MC_C01.cfg"), False)
+    lines = [json.loads(l) for l in open(tb)]
+    ls = copy.deepcopy(lines)
+    ev = ls[3]["ev"][5]
+    ls[3]["ev"][5] = [e for e in ev if not (e[0] == 0 and e[1] == "u")]          # the leaf never saw this update
+    t5 = os.path.join(wd, "c01.dropped.ndjson"); write(ls, t5)
+    expect("C01 one Probe update event dropped -> forward-once rejected", mc("MC_C01", sp, t5, "MC_C01.cfg"), True, where=(1, 3, 5))
+    ls = copy.deepcopy(lines); ls[3]["ev"][5] = ev + [[0, "u", ev[0][2]]]
+    t6 = os.path.join(wd, "c01.dup.ndjson"); write(ls, t6)
+    expect("C01 one update delivered twice -> rejected", mc("MC_C01", sp, t6, "MC_C01.cfg"), True, where=(1, 3, 5))
+    # --- P2: programs
+    progs = [{"id": 1, "unit": 1, "slots": 3, "prog": [["new", 0, sma(2)], ["new", 1, sma(2)], ["u", 0, 1], ["u", 1, 1], ["u", 0, 3], ["l", 0], ["u", 1, 3], ["l", 1], ["clone", 0, 2], ["l", 2]]}]
+    pi = os.path.join(wd, "p2.in.ndjson"); po = os.path.join(wd, "p2.out.ndjson")
+    write(progs, pi); sfv.harness("run", pi, po)
+    r = sfv.run_tlc("Trace_SF", "Trace.cfg", {"TRACE": po, "PROP": "C17"}, wd, workers=1, timeout=300, dfs=True)
+    expect("P2 clean program trace accepted", r, False)
+    rec = json.loads(open(po).readline()); rec["res"][7][2][0] = (rec["res"][7][2][0] + 1) % 10000; rec["res"][7][4][2] += 1
+    pc = os.path.join(wd, "p2.corrupt.ndjson"); write([rec], pc)
+    r = sfv.run_tlc("Trace_SF", "Trace.cfg", {"TRACE": pc, "PROP": "C17"}, wd, workers=1, timeout=300, dfs=True)
+    expect("P2 the twin's answer changed in one bit -> rejected", r, True)
+    # --- P3: stream
+    run = Run("selftest", "quick", "exploration")
+    st = [{"cfg": sma(3), "unit": 10, "mode": "window", "eps": [1, 1000000], "float": "f64", "xs": [1, 5, 9, 12, 7, 7, 3, 40, 2, 2], "k": 1}]
+    r = sfv.p3_stream_job(run, "p3", "C16", st)
+    expect("P3 clean stream accepted", r, False)
+    tr = os.path.join(run.wd, "p3.trace.ndjson")
+    ls = [json.loads(l) for l in open(tr)]
+    ls[6]["o"][2][2] = (ls[6]["o"][2][2] + 7) % 10000
+    tc = os.path.join(wd, "p3.corrupt.ndjson"); write(ls, tc)
+    r = sfv.run_tlc("Trace_Stream", "TraceS.cfg", {"TRACE": tc, "PROP": "C16"}, wd, workers=1, timeout=300, dfs=True)
+    expect("P3 one recorded answer perturbed by 7e-4 -> rejected", r, True)
+    bad = [n for n, ok, _ in results if not ok]
+    if bad:
+        log("selftest FAILED: " + "; ".join(bad))
+        return 2
+    log("selftest ok: %d demonstrations" % len(results))
     return 0
 
 def replay(path):
